@@ -123,11 +123,13 @@ where
                 self.skip_until = self.i.saturating_add(self.gap(self.i));
             }
             if self.i >= self.skip_until {
+                // calculate next skip: the next candidate is element `i + 1`, and a gap of `g` means that `g`
+                // elements are passed over before one is taken
+                let g = self.gap(self.i + 1);
+                self.skip_until = (self.i + 1).saturating_add(g);
+
                 let j: usize = self.rng.gen_range(0..self.k);
                 self.reservoir[j] = obj;
-
-                // calculate next skip
-                self.skip_until = self.i.saturating_add(self.gap(self.i));
             }
         }
 
